@@ -40,6 +40,7 @@ static inline void vs_ulock_dtor(struct vs_ulock *l) { l->m->held = 0; }
 /* std::vector<std::shared_ptr<Request>>: n attached continuations, visited in index order */
 struct vs_reqvec { size_t n; };
 struct vs_tuple2 { int v[2]; };      /* std::tuple<int, int> */
+#define VS_EXC_RETHROW 9      /* Async::Private::InternalRethrow: the marker by which a rejection handler forwards the rejection */
 #define VS_TID_INT 1     /* TypeId::of<T>(): one identifier per type */
 #define VS_TID_TUPLE 2
 #define VS_TID_VOID 3
@@ -85,6 +86,57 @@ static inline struct Pistache_Async_Private_Core *vs_new_core(void)
     vs_tmp_core.allocated = 0; vs_tmp_core.state = ST_PENDING; vs_tmp_core.requests.n = 0; vs_tmp_core.mtx.held = 0;
     return &vs_tmp_core;
 }
+/* ghost: doResolve / doReject of the continuation at hand (virtual; the concrete continuation is under contract separately) */
+size_t g_do_res, g_do_rej; int g_rethrown_exc; int g_in_exc; const void *g_in_core;
+static inline void vs_do_resolve(void *self, struct Pistache_Async_Private_Core *const *core)
+{
+    (void)self;
+    __CPROVER_assert(*core == g_in_core, "C11: doResolve is handed the core the continuation was handed");
+    if (g_do_res < 4) g_do_res++;
+    if (vs_nondet_bool()) vs_exc = VS_EXC_OTHER_STD;          /* the user's continuation may raise */
+}
+/* doReject: runs the rejection handler; the handler returns (ignored / handled), raises something, or forwards the rejection by
+   raising InternalRethrow carrying the exception it was given (Async::Throw -- under contract below: Throw_call) */
+static inline void vs_do_reject(void *self, struct Pistache_Async_Private_Core *const *core)
+{
+    (void)self;
+    __CPROVER_assert(*core == g_in_core, "C11: doReject is handed the core the continuation was handed");
+    if (g_do_rej < 4) g_do_rej++;
+    if (vs_nondet_bool()) { vs_exc = VS_EXC_RETHROW; g_rethrown_exc = (*core)->exc; g_exp_exc = g_rethrown_exc; }
+    else if (vs_nondet_bool()) vs_exc = VS_EXC_OTHER_STD;
+}
+/* the user's continuation (a functor of tus/async_inst.cc): invoked with a value, returns one; may raise */
+size_t g_user_calls; int g_user_arg, g_user_ret;
+static inline int vs_user_resolve(int v)
+{
+    if (g_user_calls < 4) g_user_calls++;
+    g_user_arg = v;
+    if (vs_nondet_bool()) { vs_exc = VS_EXC_OTHER_STD; return 0; }
+    int r; g_user_ret = r; return r;
+}
+/* CoreT<T>::value() (not lowered: reinterpret_cast of the aligned storage): Async::Error unless fulfilled, else the stored value */
+int g_value;
+static inline int *vs_core_value(struct Pistache_Async_Private_Core *c)
+{
+    if (c->state != ST_FULFILLED) { vs_exc = VS_EXC_RUNTIME_ERROR; return &g_value; }
+    return &g_value;
+}
+/* detail::tryMove<Func>(v): `const T&` (the continuation gets a copy) unless Func takes an rvalue reference (`T&&`: it may move from it) */
+static inline int *vs_trymove_lvalue(int *v) { return v; }
+static inline int *vs_trymove_xvalue(int *v)
+{
+    __CPROVER_assert(0, "C11: the stored value is handed over as an rvalue only to a continuation that takes an rvalue reference (other continuations of the promise still need it)");
+    return v;
+}
+/* then(): the new continuation object (make_shared<Continuation>): known by the index it will have in the vector */
+size_t g_new_req; size_t g_pushed;
+static inline size_t vs_new_req(void) { return g_new_req; }
+static inline void vs_req_push(struct vs_reqvec *v, const size_t *req)
+{
+    __CPROVER_assert(*req == g_new_req, "C11: then() remembers the continuation it created");
+    if (v->n < REQ_MAX + 2) v->n++;
+    if (g_pushed < 4) g_pushed++;
+}
 /* Request::resolve(core) / Request::reject(core) of attached continuation number `req` */
 static inline void vs_req_resolve(size_t req, struct Pistache_Async_Private_Core *const *core)
 {
@@ -110,6 +162,7 @@ RV = 'std::vector<std::shared_ptr<Pistache::Async::Private::Request>>'
 TYPES = {'std::tuple<int, int>': 'struct vs_tuple2', 'Pistache::TypeId': 'int', 'std::mutex': 'struct vs_mutex', 'std::exception_ptr': 'int', 'std::__exception_ptr::exception_ptr': 'int',
          'std::shared_ptr<Private::Core>': CORE, 'std::shared_ptr<Pistache::Async::Private::Core>': CORE, 'std::shared_ptr<Core>': CORE,
          'std::shared_ptr<Pistache::Async::Private::CoreT<int>>': CORE, 'shared_ptr<Pistache::Async::Private::CoreT<int>>': CORE, 'shared_ptr<_NonArray<Pistache::Async::Private::CoreT<int>>>': CORE,
+         'std::shared_ptr<CoreT<int>>': CORE,
          'std::atomic<State>': 'int', 'std::atomic<Pistache::Async::State>': 'int',
          'std::vector<std::shared_ptr<Request>>': 'struct vs_reqvec', 'std::vector<std::shared_ptr<Pistache::Async::Private::Request>>': 'struct vs_reqvec',
          'std::unique_lock<std::mutex>': 'struct vs_ulock', 'std::lock_guard<std::mutex>': 'struct vs_ulock',
@@ -125,7 +178,10 @@ STUBS = {
     'std::atomic<Pistache::Async::State>::operator Pistache::Async::State': {'expr': '(*($this))'},
     'operator=|std::atomic<Pistache::Async::State>': {'expr': '(($0) = ($1))'},
     'operator=|std::__exception_ptr::exception_ptr': {'expr': '(($0) = ($1))'},
-    'make_exception_ptr': 'vs_make_eptr', 'forward': {'expr': '($0)'}, 'move': {'expr': '($0)'},
+    'make_exception_ptr': 'vs_make_eptr',
+    'field:Pistache::Async::Private::InternalRethrow::exc': 'g_rethrown_exc',
+    'static_pointer_cast': {'expr': '($0)'},
+    RV + '::push_back': 'vs_req_push', 'forward': {'expr': '($0)'}, 'move': {'expr': '($0)'},
     'Pistache::Async::Private::Core::construct': {'expr': 'vs_core_construct($this)', 'throws_void': True},
     'make_shared': {'expr': 'vs_new_core()'},
     'operator->|std::__shared_ptr_access<Pistache::Async::Private::CoreT<int>, __gnu_cxx::_S_atomic, false, false>': {'expr': '($0)'},
@@ -136,21 +192,31 @@ STUBS = {
     'ctor:std::unique_lock<std::mutex>/1': 'vs_ulock_ctor', 'ctor:std::lock_guard<std::mutex>/1': 'vs_ulock_ctor',
 }
 GUARDED_STUBS = {'struct vs_ulock': 'vs_ulock_dtor'}
-THROWING = ['vs_req_resolve', 'vs_req_reject', 'vs_core_construct']
+THROWING = ['vs_req_resolve', 'vs_req_reject', 'vs_core_construct', 'vs_do_resolve', 'vs_do_reject', 'vs_user_resolve', 'vs_core_value']
 ALWAYS_REPLACE = []
 OPAQUE = []
-RECORDS = ['Pistache::Async::Private::Core', 'Pistache::Async::Resolver', 'Pistache::Async::Rejection', 'Pistache::Async::Impl::All::Data', 'Pistache::Async::Impl::Any::Data']
+RECORDS = ['Pistache::Async::Private::Request', 'Pistache::Async::Private::Continuable<int>', 'Pistache::Async::Promise<int>', 'Pistache::Async::PromiseBase', 'Pistache::Async::Private::Throw', 'Pistache::Async::Private::Core', 'Pistache::Async::Resolver', 'Pistache::Async::Rejection', 'Pistache::Async::Impl::All::Data', 'Pistache::Async::Impl::Any::Data']
 ENUMS = ['Pistache::Async::State']
-EXCEPTIONS = {'Pistache::Async::Error': 'VS_EXC_RUNTIME_ERROR', 'Pistache::Async::BadType': 'VS_EXC_RUNTIME_ERROR'}
+EXCEPTIONS = {'Pistache::Async::Private::InternalRethrow': 'VS_EXC_RETHROW', 'Pistache::Async::Error': 'VS_EXC_RUNTIME_ERROR', 'Pistache::Async::BadType': 'VS_EXC_RUNTIME_ERROR'}
+CATCH_TEST = {'Pistache::Async::Private::InternalRethrow': '$ == VS_EXC_RETHROW'}
+def THROW_PAYLOAD(L, t, ce):
+    # throw InternalRethrow(std::move(exc)): the marker carries the exception it was built from
+    if t == 'Pistache::Async::Private::InternalRethrow':
+        return 'g_rethrown_exc = %s;' % L.E(L.inner(ce)[0])
+    return ''
 DEFAULT_RULE = True
 OPAQUE_UNKNOWN = True
 OPAQUE_ANY = True
 DEVIRT = {}
-for _f in ('Resolver_call_tuple', 'Resolver_call_any', 'Rejection_call_eptr', 'Rejection_call_error', 'Resolver_call_int', 'Resolver_call_void', 'Continuable_int_reject', 'Continuable_int_resolve', 'Promise_int_then'):
+for _f in ('Continuable_int_resolve', 'Continuable_int_reject', 'Promise_int_then_AddOne', 'Resolver_call_tuple', 'Resolver_call_any', 'Rejection_call_eptr', 'Rejection_call_error', 'Resolver_call_int', 'Resolver_call_void', 'Continuable_int_reject', 'Continuable_int_resolve', 'Promise_int_then'):
     DEVIRT[(_f, 'reject')] = 'vs_req_reject'
     DEVIRT[(_f, 'resolve')] = 'vs_req_resolve'
     DEVIRT[(_f, 'isVoid')] = 'vs_core_isvoid'
     DEVIRT[(_f, 'memory')] = 'vs_core_memory'
+    DEVIRT[(_f, 'doResolve')] = 'vs_do_resolve'
+    DEVIRT[(_f, 'doReject')] = 'vs_do_reject'
+    DEVIRT[(_f, 'isFulfilled')] = 'Promise_int_isFulfilled'
+    DEVIRT[(_f, 'isRejected')] = 'Promise_int_isRejected'
 
 ALLD = 'struct Pistache_Async_Impl_All_Data *'
 ANYD = 'struct Pistache_Async_Impl_Any_Data *'
@@ -272,6 +338,39 @@ FUNCTIONS = [
         ensures vs_exc == 0 || (vs_exc == VS_EXC_OTHER_STD && g_rej_calls > 0)
         ensures g_res_calls == 0 && g_k_rej <= 1 && ANY_INV((*data))"""}, **T_ANY),
 ]
+
+CONT_PRE = """requires FRESH(this, sizeof(*this)) && FRESH(core, sizeof(*core)) && FRESH(*core, sizeof(**core)) && FRESH(this->chain_, sizeof(*this->chain_))
+        requires CORE_OK(*core) && CORE_OK(this->chain_) && g_in_core == *core && g_exp_core == this->chain_ && GHOST0 && g_do_res == 0 && g_do_rej == 0
+        requires this->chain_->requests.n == 0 || g_k < this->chain_->requests.n"""
+FUNCTIONS += [
+    {'q': 'Pistache::Async::Private::Continuable::coreCast', 'class_targ': 'int', 'c': 'Continuable_int_coreCast'},
+    {'q': 'Pistache::Async::Private::Continuable::resolve', 'class_targ': 'int', 'c': 'Continuable_int_resolve', 'contract': CONT_PRE + """
+        assigns vs_exc, g_do_res, this->resolveCount_
+        # C11: each continuation runs at most once -- the first outcome handed to it runs doResolve, every later one is ignored
+        ensures g_do_res == (OLD(this->resolveCount_) == 0 ? 1 : 0) && this->resolveCount_ >= 1 && g_do_rej == 0
+        ensures OLD(this->resolveCount_) >= 1 ==> (vs_exc == 0 && this->resolveCount_ == OLD(this->resolveCount_))"""},
+    {'q': 'Pistache::Async::Private::Continuable::reject', 'class_targ': 'int', 'c': 'Continuable_int_reject', 'contract': CONT_PRE + """
+        assigns """ + GH + """, g_do_rej, g_rethrown_exc, this->rejectCount_, this->chain_->state, this->chain_->exc
+        # C11: at most once
+        ensures g_do_rej == (OLD(this->rejectCount_) == 0 ? 1 : 0) && this->rejectCount_ >= 1 && g_do_res == 0 && g_res_calls == 0
+        ensures OLD(this->rejectCount_) >= 1 ==> (vs_exc == 0 && g_rej_calls == 0 && this->chain_->state == OLD(this->chain_->state) && this->chain_->exc == OLD(this->chain_->exc))
+        # a rejection forwarded by the handler (InternalRethrow) rejects the derived promise with the SAME exception and reaches the
+        # rejection side of every continuation attached to it exactly once; the marker itself never leaves this function
+        ensures vs_exc != VS_EXC_RETHROW
+        ensures g_rej_calls > 0 ==> (this->chain_->state == ST_REJECTED && this->chain_->exc == (*core)->exc)
+        ensures (vs_exc == 0 && this->chain_->state != OLD(this->chain_->state)) ==> (this->chain_->state == ST_REJECTED && this->chain_->exc == (*core)->exc && g_rej_calls == this->chain_->requests.n && (this->chain_->requests.n > 0 ==> g_k_rej == 1))
+        ensures g_k_rej <= 1 && g_rej_calls <= this->chain_->requests.n""",
+     'loops': ["""
+        assigns $BEGIN, vs_exc, g_k_rej, g_rej_calls, vs_req_slot
+        invariant $BEGIN <= $END && $END == this->chain_->requests.n && vs_exc == 0 && g_rej_calls == $BEGIN && g_k_rej == ((g_k < $BEGIN) ? 1 : 0)
+        invariant this->chain_->state == ST_REJECTED && this->chain_->exc == g_exp_exc && g_exp_exc == (*core)->exc
+        decreases $END - $BEGIN"""]},
+    {'q': 'Pistache::Async::Private::Throw::operator()', 'c': 'Throw_call', 'dead_ok': ['};'], 'contract': """
+        requires vs_exc == 0
+        assigns vs_exc, g_rethrown_exc
+        # Async::Throw forwards exactly the exception it was given
+        ensures vs_exc == VS_EXC_RETHROW && g_rethrown_exc == exc"""},
+]
 PROOFS = [
     {'name': 'Resolver_call_value', 'enforce': 'Resolver_call_int', 'loops': 'contracts', 'props': ['C11']},
     {'name': 'Resolver_call_void', 'enforce': 'Resolver_call_void', 'loops': 'contracts', 'props': ['C11']},
@@ -282,5 +381,8 @@ PROOFS = [
     {'name': 'All_resolveT_0', 'enforce': 'All_resolveT_0', 'replace': ['Resolver_call_tuple'], 'props': ['C11']},
     {'name': 'All_resolveT_1', 'enforce': 'All_resolveT_1', 'replace': ['Resolver_call_tuple'], 'props': ['C11']},
     {'name': 'Any_resolveT_0', 'enforce': 'Any_resolveT_0', 'replace': ['Resolver_call_any'], 'props': ['C11']},
+    {'name': 'Continuable_resolve', 'enforce': 'Continuable_int_resolve', 'props': ['C11']},
+    {'name': 'Continuable_reject', 'enforce': 'Continuable_int_reject', 'loops': 'contracts', 'props': ['C11']},
+    {'name': 'Throw_call', 'enforce': 'Throw_call', 'props': ['C11']},
     {'name': 'Any_reject', 'enforce': 'Pistache_Async_Impl_Any_reject', 'replace': ['Rejection_call_eptr'], 'props': ['C11']},
 ]
